@@ -56,6 +56,37 @@ Definition m_plus_line (j n : nat) : nat := (2 + j * n)%nat.                    
 Definition m_reported (local_line lines_before : nat) : nat := (local_line + lines_before)%nat.
 Definition m_lines_after (lines_before buff_lines : nat) : nat := (lines_before + buff_lines)%nat.
 
+Definition m_plus_wins (plus_line header_line : nat) : bool := (plus_line <? header_line)%nat.  (* FastQBuffer._validate *)
+
+(* OneLineBuffer._validate: the first record that does not start with the marker (kept = the line breaks of
+   the buffer, data = the buffer, m = number of kept line breaks) *)
+Definition m_header_fail (n : nat) (hdr : Z) (kept data : list Z) (m : nat) : option nat :=
+  if negb (nthZ data 0 =? hdr) then Some 0%nat
+  else
+    (* new_lines[n-1:-1:n] + 1 : first byte of every later record *)
+    let hidx := map (fun p => p + 1) (strided kept (n - 1) n (m - 1) 0) in
+    match find_first_bad (fun p => nthZ data p =? hdr) hidx 0 with
+    | Some i => Some (m_header_line i n)
+    | None => None
+    end.
+(* FastQBuffer._validate: the first record whose third line does not start with '+' *)
+Definition m_plus_fail (n : nat) (plus : bool) (kept data : list Z) (m : nat) : option nat :=
+  if plus then
+    let pidx := map (fun p => p + 1) (strided kept 1 n m 0) in
+    match find_first_bad (fun p => nthZ data p =? 43) pidx 0 with
+    | Some j => Some (m_plus_line j n)
+    | None => None
+    end
+  else None.
+(* which of the two is raised (fastq_buffer.py, repaired): the '+' violation if there is no header violation
+   or it lies on an earlier line, otherwise the header violation *)
+Definition m_first_fail (P H : option nat) : option nat :=
+  match P, H with
+  | Some p, None => Some p
+  | Some p, Some h => if m_plus_wins p h then Some p else Some h
+  | None, _ => H
+  end.
+
 Definition cut (f : fmt) (chunk : list Z) : cutres :=
   match f with
   | Delim sep =>
@@ -80,6 +111,34 @@ Definition cut (f : fmt) (chunk : list Z) : cutres :=
         let kept := firstn m nls in
         let size := m_size_after (last kept 0) in
         let data := firstn size chunk in
+        match m_first_fail (m_plus_fail n plus kept data m) (m_header_fail n hdr kept data m) with
+        | Some l => CutFormat l
+        | None => CutOk size m
+        end
+  | MultiFasta =>
+      if negb (nthZ chunk 0 =? 62) then CutRaise
+      else
+        let nls := nl_pos (removelast chunk) in
+        let ents := filter (fun p => nthZ chunk (p + 1) =? 62) nls in
+        match ents with
+        | [] => CutRaise
+        | _ => let e := last ents 0 in
+               CutOk (Z.to_nat (e + 1)) (length (filter (fun p => p <? e) nls))
+        end
+  end.
+
+(* the order of the checks before the repair (all markers first, then the '+' lines): kept for one refutation *)
+Definition cut_pinned (f : fmt) (chunk : list Z) : cutres :=
+  match f with
+  | OneLine n hdr plus =>
+      let nls := nl_pos chunk in
+      let cnt := length nls in
+      if m_oneline_incomplete cnt n then CutIncomplete
+      else
+        let m := m_oneline_kept cnt n in
+        let kept := firstn m nls in
+        let size := m_size_after (last kept 0) in
+        let data := firstn size chunk in
         if negb (nthZ data 0 =? hdr) then CutFormat 0
         else
           (* new_lines[n-1:-1:n] + 1 : first byte of every later record *)
@@ -95,16 +154,7 @@ Definition cut (f : fmt) (chunk : list Z) : cutres :=
                 end
               else CutOk size m
           end
-  | MultiFasta =>
-      if negb (nthZ chunk 0 =? 62) then CutRaise
-      else
-        let nls := nl_pos (removelast chunk) in
-        let ents := filter (fun p => nthZ chunk (p + 1) =? 62) nls in
-        match ents with
-        | [] => CutRaise
-        | _ => let e := last ents 0 in
-               CutOk (Z.to_nat (e + 1)) (length (filter (fun p => p <? e) nls))
-        end
+  | _ => cut f chunk
   end.
 
 Inductive compres := CYes | CNo | CFormat (line : nat).
